@@ -15,7 +15,14 @@ def g_exit(repo):
     g.text('''pub struct JunitReporter { pub exit_code: i32 }\n''', 'projection of JunitReporter to the field update_exit_code touches (R6p)')
     g.fn('U-xj', CMD + 'reporters/mod.rs', 'update_exit_code', impl=r'JunitReporter', spec='update_exit_code.spec',
          wrap_impl='impl JunitReporter', props=['C06'])
-    g.unit_meta['L-exit'] = dict(function='lemma_consts, lemma_test_exit_is_max, lemma_test_exit_assoc, lemma_fold_validate', file='/verif/verus/spec_exit.rs',
+    V = CMD + 'validate.rs'
+    FOLD = r'if\s+[^{;]*\{\s*exit_code\s*=\s*status\s*;?\s*\}'
+    for k, where in ((0, '--rules path'), (1, '--payload path')):
+        g.fragment('U-xfold-%d' % k, V, 'execute', r'Executable for Validate', FOLD, k, ('exit_code_in: i32, status: i32', 'i32'), 'exit_code',
+                   '    ensures\n        validate_step_ok(exit_code_in, status, res),\n',
+                   'the conditional assignment `exit_code = status` that folds the code of one rules file into the exit code of validate (%s)' % where,
+                   props=['C06'], pre='let mut exit_code = exit_code_in;   // the accumulator of Validate::execute (`let mut exit_code = SUCCESS_STATUS_CODE;`)')
+    g.unit_meta['L-exit'] = dict(function='lemma_consts, lemma_test_exit_is_max, lemma_test_exit_assoc, lemma_fold_validate, lemma_step_fold', file='/verif/verus/spec_exit.rs',
                                  clauses=dict(requires=0, ensures=12, invariant=0, decreases=1), props=['C06'], spec=None, lemma=True)
     return g
 
